@@ -28,14 +28,14 @@ theorem hostOK_pushNode {Own Ex} {net : Net} (kind : String) (h : HostOK Own Ex 
   · intro y hy hex hdy; rw [hnode]; exact b y hy hex hdy
   · rw [hnode]; exact dn
 
-theorem hostOK_pushNodes {Own Ex} (hup : ∀ x y, Own x → x ≤ y → Own y) : ∀ (kinds : List String) (net : Net),
-    HostOK Own Ex net → Own net.nodes.size → HostOK Own Ex (kinds.foldl pushNode net)
+theorem hostOK_pushNodes {Own Ex} : ∀ (kinds : List String) (net : Net),
+    HostOK Own Ex net → (∀ y, net.nodes.size ≤ y → Own y) → HostOK Own Ex (kinds.foldl pushNode net)
   | [], _, h, _ => h
   | k :: ks, net, h, ho => by
     rw [List.foldl_cons]
-    apply hostOK_pushNodes hup ks _ (hostOK_pushNode k h ho)
+    apply hostOK_pushNodes ks _ (hostOK_pushNode k h (ho _ (Nat.le_refl _)))
     have : (pushNode net k).nodes.size = net.nodes.size + 1 := by simp [pushNode]
-    rw [this]; exact hup _ _ ho (Nat.le_succ _)
+    intro y hy; rw [this] at hy; exact ho y (by omega)
 
 theorem hostOK_addLineNet {Own Ex} {net : Net} (d dp r rp : Nat) (h : HostOK Own Ex net) (ho : Own d) :
     HostOK Own Ex (addLineNet net d dp r rp) := by
@@ -219,6 +219,9 @@ theorem dense_removeLine (b : Bool) (net net' : Net) (l : Nat) (he : removeLine 
     · rw [node_modify net1 net1.nodes rfl]; split <;> rfl
     · rw [node_modify net1 net1.nodes rfl]; split <;> rfl
 
+/-- node `j` is no fork with a gap in its output list -/
+def Dn (net : Net) (j : Nat) : Prop := (net.node j).isFork = true → ∀ o ∈ (net.node j).outs, o ≠ none
+
 /-- state of the loop over the input pins of the instance -/
 structure CI (Own : Nat → Prop) (m : NNet) (net : Net) (ren : Option Nat → Option Nat) (Ex : Nat → Prop)
     (pins : List (Nat × Option Nat)) : Prop where
@@ -243,12 +246,13 @@ theorem connectIns_some (Own : Nat → Prop) (m : NNet) (map : Array (Option Nat
     ∀ (pins : List (Nat × Option Nat)) (net : Net) (ren : Option Nat → Option Nat) (Ex : Nat → Prop),
     (∀ inn l0, (inn, some l0) ∈ pins → ignoredPort m inn = false → ∃ p, inTarget m map inn = some p) →
     CI Own m net ren Ex pins →
-    ∃ net' ren' Ex', connectIns m map pins (net, ren) = some (net', ren') ∧ HostOK Own Ex' net' ∧ net'.nodes.size = net.nodes.size
-  | [], net, ren, Ex, _, ci => ⟨net, ren, Ex, rfl, ci.host, rfl⟩
+    ∃ net' ren' Ex', connectIns m map pins (net, ren) = some (net', ren') ∧ HostOK Own Ex' net' ∧ net'.nodes.size = net.nodes.size ∧
+      (∀ j, j < net.nodes.size → Dn net j → Dn net' j) ∧ ren' none = none
+  | [], net, ren, Ex, _, ci => ⟨net, ren, Ex, rfl, ci.host, rfl, fun _ _ h => h, ci.rnone⟩
   | (inn, none) :: rest, net, ren, Ex, ht, ci => by
-    obtain ⟨n', r', e', h1, h2, h3⟩ := connectIns_some Own m map rest net ren Ex
+    obtain ⟨n', r', e', h1, h2, h3, h4, h5⟩ := connectIns_some Own m map rest net ren Ex
       (fun i l hm => ht i l (List.mem_cons_of_mem _ hm)) ci.tail
-    refine ⟨n', r', e', ?_, h2, h3⟩
+    refine ⟨n', r', e', ?_, h2, h3, h4, h5⟩
     simp only [connectIns, ci.rnone]
     exact h1
   | (inn, some l0) :: rest, net, ren, Ex, ht, ci => by
@@ -303,9 +307,10 @@ theorem connectIns_some (Own : Nat → Prop) (m : NNet) (map : Array (Option Nat
           simp only [mvLine, beq_iff_eq, Option.some.injEq] at e'
           congr 1
           split at e' <;> split at e' <;> simp only [Option.some.injEq] at e' <;> omega
-      obtain ⟨n', r', e', h1, h2, h3⟩ := connectIns_some Own m map rest a1 _ _
+      obtain ⟨n', r', e', h1, h2, h3, h4, h5⟩ := connectIns_some Own m map rest a1 _ _
         (fun i l hm => ht i l (List.mem_cons_of_mem _ hm)) ci'
-      refine ⟨n', r', e', ?_, h2, by rw [h3, sp.nsize]⟩
+      refine ⟨n', r', e', ?_, h2, by rw [h3, sp.nsize], fun j hj hd => h4 j (by rw [sp.nsize]; exact hj)
+        (dense_removeLine false net a1 ll hrm j hj hd), h5⟩
       have hi' : ((m.net.node inn).outs.length == 0) = true := hi
       simp only [connectIns, hren, hi', if_true, hrm]
       exact h1
@@ -321,9 +326,14 @@ theorem connectIns_some (Own : Nat → Prop) (m : NNet) (map : Array (Option Nat
         have hd : ((setReader net ll r rp).line ll2).driver = (net.line ll2).driver := by
           rw [setReader_line net ll r rp ll2 hl2]; split <;> rfl
         rw [hd, s1]; exact hg2 hi2
-      obtain ⟨n', r', e', h1, h2, h3⟩ := connectIns_some Own m map rest _ ren Ex
+      obtain ⟨n', r', e', h1, h2, h3, h4, h5⟩ := connectIns_some Own m map rest _ ren Ex
         (fun i l hm => ht i l (List.mem_cons_of_mem _ hm)) ci'
-      refine ⟨n', r', e', ?_, h2, by rw [h3, s1]⟩
+      refine ⟨n', r', e', ?_, h2, by rw [h3, s1], fun j hj hd => h4 j (by rw [s1]; exact hj) (by
+        intro hf o ho
+        rw [setReader_node] at hf ho
+        split at hf
+        · rw [if_pos (by assumption)] at ho; exact hd hf o ho
+        · rw [if_neg (by assumption)] at ho; exact hd hf o ho), h5⟩
       have hi' : ((m.net.node inn).outs.length == 0) = false := hi0
       simp only [connectIns, hren, hi', hp]
       exact h1
